@@ -65,8 +65,9 @@ def run(eng, R):
 
     writers = {"__init__", "_fill_unprocessed", "rebin", "set_bins", "fill"}
     for cls, f in eng.functions_of_family(H):
-        if cls is not H or f.name in writers:
-            continue
+        if cls is not H or f.name in writers or eng.absorbed(f):
+            continue  # (a private helper that is written out in all its callers is decided there)
+        f = eng.cfunc(f)
         g = eng.cfg(f)
         reads = []
         for n in g.stmt_nodes():
@@ -105,6 +106,7 @@ def run(eng, R):
         f = H.find_prop(name).fget if H.find_prop(name) else H.find_method(name)
         if f is None:
             raise AnalysisError("anchor HistContainer.%s not found" % name)
+        f = eng.cfunc(f)
         rets = [n for n in ast.walk(f.node) if isinstance(n, ast.Return) and n.value is not None]
         subs = [s for r in rets for s in ast.walk(r.value) if _subscript_of_data(s)]
         ok = bool(subs) and all(_index_repr(s) == idx for s in subs)
@@ -123,7 +125,7 @@ def run(eng, R):
 
     # ------------------------------------------------------------------ G4: rebin / fill / raw_data / n_entries
     R.rule("G4", "rebin zeroes the counts, re-queues all processed entries before clearing them; fill queues every entry; raw_data = processed + pending", 5)
-    rb = p.method(H, "rebin")
+    rb = eng.cfunc(p.method(H, "rebin"))
     grb = eng.cfg(rb)
 
     def requeue(n):
@@ -158,20 +160,25 @@ def run(eng, R):
     zs = [n.stmt for n in grb.stmt_nodes() if zero_counts(n)]
     sz_ok = bool(zs) and all(_norm_len(ast.unparse(z.value.args[0])) in ("len(self._bin_edges)+1", "len(_new_bin_edges)+1") for z in zs)
     R.ob("G4", "rebin:size", sz_ok, eng.where(rb), "rebin allocates %s counts, expected len(edges)-1 bins + underflow + overflow" % [ast.unparse(z.value.args[0]) for z in zs])
-    fl = p.method(H, "fill")
+    fl = eng.cfunc(p.method(H, "fill"))
     q_ok = False
     for n in ast.walk(fl.node):
         if isinstance(n, ast.AugAssign) and self_attr(n.target) == "_unprocessed_entries" and isinstance(n.op, ast.Add):
             v = n.value
+            if isinstance(v, ast.Name):
+                # a local that holds list(entries) (e.g. converted in a try block, added in its else branch)
+                defs = [a.value for a in ast.walk(fl.node) if isinstance(a, ast.Assign) and len(a.targets) == 1 and isinstance(a.targets[0], ast.Name) and a.targets[0].id == v.id]
+                if len(defs) == 1:
+                    v = defs[0]
             if isinstance(v, ast.Call) and common.call_name(v) == "list" and v.args and isinstance(v.args[0], ast.Name) and v.args[0].id == "entries":
                 q_ok = True
         if isinstance(n, ast.Call) and isinstance(n.func, ast.Attribute) and n.func.attr == "extend" and self_attr(n.func.value) == "_unprocessed_entries" and n.args and isinstance(n.args[0], ast.Name) and n.args[0].id == "entries":
             q_ok = True
     R.ob("G4", "fill:queue", q_ok, eng.where(fl), "fill does not queue all given entries")
-    raw = H.find_prop("raw_data").fget
+    raw = eng.cfunc(H.find_prop("raw_data").fget)
     txt = [ast.unparse(r.value) for r in ast.walk(raw.node) if isinstance(r, ast.Return) and r.value is not None]
     R.ob("G4", "raw_data", bool(txt) and all("_processed_entries" in t and "_unprocessed_entries" in t for t in txt), eng.where(raw), "raw_data must list processed and pending entries")
-    ne = H.find_prop("n_entries").fget
+    ne = eng.cfunc(H.find_prop("n_entries").fget)
     txt = [ast.unparse(r.value) for r in ast.walk(ne.node) if isinstance(r, ast.Return) and r.value is not None]
     R.ob("G4", "n_entries", bool(txt) and all("sum(self._data)" in t.replace("np.", "") and "len(self._unprocessed_entries)" in t for t in txt), eng.where(ne),
          "n_entries must be sum of all counts (incl. under/overflow) + number of pending entries, got %s" % txt)
@@ -193,29 +200,48 @@ def _inside(outer, inner):
 
 
 def _filler(eng, R, H, f, g, p):
+    # decided on the canonical form: helpers of the filler written out, locals that only name an attribute (`_counts = self._data`) resolved
+    fnode = eng.cnode(f, paths=True)
+    g = eng.ccfg(f, paths=True)
     # roles by def-use: entry-value variables derive from the sorted array; edge variables from self.low / _bin_edges[...] ; cursor/bin index ints
     really_sorted = set()
     really_sorted = set()
     sorted_vars, entry_vars, edge_upper_vars, cursor_vars, bin_vars = set(), set(), set(), set(), set()
-    assigns = [n for n in ast.walk(f.node) if isinstance(n, ast.Assign) and len(n.targets) == 1 and isinstance(n.targets[0], ast.Name)]
+    assigns = [n for n in ast.walk(fnode) if isinstance(n, ast.Assign) and len(n.targets) == 1 and isinstance(n.targets[0], ast.Name)]
     for a in assigns:
         v = a.value
         if isinstance(v, ast.Call) and v.args and "_unprocessed_entries" in ast.unparse(v.args[0]) and common.call_name(v) not in ("len", "all", "any", "floor"):
             sorted_vars.add(a.targets[0].id)
             if common.call_name(v) in ("sort", "sorted"):
                 really_sorted.add(a.targets[0].id)
+    unsorted_expr = []
+
+    def from_pending(v):
+        return isinstance(v, ast.Call) and v.args and "_unprocessed_entries" in ast.unparse(v.args[0]) and common.call_name(v) not in ("len", "all", "any", "floor", "list", "warn")
+
+    def is_sorted_expr(e):
+        """the sorted batch: a local holding it, or the sorting call itself (when the local has been written out)"""
+        if isinstance(e, ast.Name):
+            return e.id in sorted_vars
+        if from_pending(e):
+            if common.call_name(e) not in ("sort", "sorted"):
+                unsorted_expr.append(e)
+            return True
+        return False
+
+    inline_sorted = [n for n in ast.walk(fnode) if from_pending(n) and not any(a.value is n for a in assigns)]
     for _ in range(2):
         for a in assigns:
             v = a.value
             t = a.targets[0].id
-            if isinstance(v, ast.Subscript) and isinstance(v.value, ast.Name) and v.value.id in sorted_vars and not isinstance(v.slice, ast.Slice):
+            if isinstance(v, ast.Subscript) and is_sorted_expr(v.value) and not isinstance(v.slice, ast.Slice):
                 entry_vars.add(t)
                 if isinstance(v.slice, ast.Name):
                     cursor_vars.add(v.slice.id)
             if isinstance(v, ast.Subscript) and self_attr(v.value) == "_bin_edges" and isinstance(v.slice, ast.Name):
                 edge_upper_vars.add(t)
                 bin_vars.add(v.slice.id)
-    if not (sorted_vars and entry_vars and edge_upper_vars and cursor_vars and bin_vars):
+    if not ((sorted_vars or inline_sorted) and entry_vars and edge_upper_vars and cursor_vars and bin_vars):
         if _vectorised_fill(eng, R, H, f):
             # the single-pass rules G3a-e do not apply to this implementation (their floors are dropped, G5 carries its own)
             for r in ("G3a", "G3b", "G3c", "G3d", "G3e"):
@@ -223,10 +249,11 @@ def _filler(eng, R, H, f, g, p):
             return
         raise AnalysisError("HistContainer._fill_unprocessed: single-pass idiom not recognised (sorted=%s entry=%s edges=%s cursor=%s bin=%s)" % (
             sorted_vars, entry_vars, edge_upper_vars, cursor_vars, bin_vars))
-    R.ob("G3d", "_fill_unprocessed:sorted", bool(sorted_vars) and bool(entry_vars) and sorted_vars <= really_sorted, eng.where(f), "entries are not sorted before the single pass over the bins")
+    R.ob("G3d", "_fill_unprocessed:sorted", bool(sorted_vars or inline_sorted) and bool(entry_vars) and sorted_vars <= really_sorted and not unsorted_expr
+         and all(common.call_name(n) in ("sort", "sorted") for n in inline_sorted), eng.where(f), "entries are not sorted before the single pass over the bins")
     # edge variable that is *compared* with the entry value is the upper edge
     cmps = []
-    for n in ast.walk(f.node):
+    for n in ast.walk(fnode):
         if isinstance(n, ast.Compare) and len(n.ops) == 1:
             l, r = n.left, n.comparators[0]
             ln = l.id if isinstance(l, ast.Name) else None
@@ -245,13 +272,13 @@ def _filler(eng, R, H, f, g, p):
     start_ok = any(a.targets[0].id in bin_vars and isinstance(a.value, ast.Constant) and a.value.value == 0 for a in assigns)
     R.ob("G3e", "_fill_unprocessed:init-edge", init_ok, eng.where(f), "the walk does not start with upper edge = self.low (underflow bin)")
     R.ob("G3e", "_fill_unprocessed:init-bin", start_ok, eng.where(f), "the walk does not start at count index 0 (underflow bin)")
-    incs = [n for n in ast.walk(f.node) if isinstance(n, ast.AugAssign) and isinstance(n.target, ast.Name) and n.target.id in bin_vars]
+    incs = [n for n in ast.walk(fnode) if isinstance(n, ast.AugAssign) and isinstance(n.target, ast.Name) and n.target.id in bin_vars]
     step_ok = bool(incs) and all(isinstance(n.op, ast.Add) and isinstance(n.value, ast.Constant) and n.value.value == 1 for n in incs)
     refresh_ok = any(a.targets[0].id == upper and isinstance(a.value, ast.Subscript) and self_attr(a.value.value) == "_bin_edges" and isinstance(a.value.slice, ast.Name) and a.value.slice.id in bin_vars for a in assigns)
     R.ob("G3e", "_fill_unprocessed:bin-step", step_ok and refresh_ok, eng.where(f), "bin index must advance by exactly 1 and the upper edge must be re-read from _bin_edges[bin index]")
     # terminal test: upper == self.high guards a break ; loop condition upper <= high
     term = []
-    for n in ast.walk(f.node):
+    for n in ast.walk(fnode):
         if isinstance(n, ast.Compare) and len(n.ops) == 1:
             txt = (ast.unparse(n.left), type(n.ops[0]).__name__, ast.unparse(n.comparators[0]))
             if upper in (txt[0], txt[2]) and "self.high" in (txt[0], txt[2]):
@@ -300,9 +327,9 @@ def _filler(eng, R, H, f, g, p):
             v = st.value
             if isinstance(v, ast.Call) and common.call_name(v) == "list" and v.args:
                 v = v.args[0]
-            return isinstance(v, ast.Name) and v.id in sorted_vars
+            return is_sorted_expr(v)
         for c in eng.calls_in_parts(n.ast_parts()):
-            if isinstance(c.func, ast.Attribute) and c.func.attr == "extend" and self_attr(c.func.value) == "_processed_entries" and c.args and isinstance(c.args[0], ast.Name) and c.args[0].id in sorted_vars:
+            if isinstance(c.func, ast.Attribute) and c.func.attr == "extend" and self_attr(c.func.value) == "_processed_entries" and c.args and is_sorted_expr(c.args[0]):
                 return True
         return False
 
@@ -325,19 +352,19 @@ def _filler(eng, R, H, f, g, p):
     tail_vars = set()
     for a in assigns:
         v = a.value
-        if isinstance(v, ast.Subscript) and isinstance(v.value, ast.Name) and v.value.id in sorted_vars and isinstance(v.slice, ast.Slice) \
+        if isinstance(v, ast.Subscript) and is_sorted_expr(v.value) and isinstance(v.slice, ast.Slice) \
                 and isinstance(v.slice.lower, ast.Name) and v.slice.lower.id in cursor_vars and v.slice.upper is None:
             tail_vars.add(a.targets[0].id)
 
     def is_tail(e):
         if isinstance(e, ast.Name) and e.id in tail_vars:
             return True
-        return isinstance(e, ast.Subscript) and isinstance(e.value, ast.Name) and e.value.id in sorted_vars and isinstance(e.slice, ast.Slice) \
+        return isinstance(e, ast.Subscript) and is_sorted_expr(e.value) and isinstance(e.slice, ast.Slice) \
             and isinstance(e.slice.lower, ast.Name) and e.slice.lower.id in cursor_vars and e.slice.upper is None
 
     of_ok = False
     pr_ok = False
-    for n in ast.walk(f.node):
+    for n in ast.walk(fnode):
         if isinstance(n, ast.AugAssign) and isinstance(n.op, ast.Add):
             if _subscript_of_data(n.target) and _index_repr(n.target) == "-1":
                 v = n.value
@@ -349,7 +376,7 @@ def _filler(eng, R, H, f, g, p):
                     of_ok = not _inside(head.stmt, n)
                 # equivalent form: len(sorted) - cursor
                 if isinstance(v, ast.BinOp) and isinstance(v.op, ast.Sub) and isinstance(v.left, ast.Call) and common.call_name(v.left) == "len" and v.left.args \
-                        and isinstance(v.left.args[0], ast.Name) and v.left.args[0].id in sorted_vars and isinstance(v.right, ast.Name) and v.right.id in cursor_vars:
+                        and is_sorted_expr(v.left.args[0]) and isinstance(v.right, ast.Name) and v.right.id in cursor_vars:
                     of_ok = not _inside(head.stmt, n)
             if self_attr(n.target) == "_processed_entries":
                 v = n.value
